@@ -179,6 +179,12 @@ func (c *Config) handleSvcConfigUpdate(svcName string, newCfg *service.Config) {
 	if !ok {
 		return
 	}
+	// an update without a configuration (a map entry without a value on the
+	// wire) carries nothing to apply: the last known configuration stays, in
+	// the store as well as in the processor.
+	if newCfg == nil {
+		return
+	}
 
 	oldCfg := sw.Config
 	sw.Config = newCfg
@@ -189,11 +195,11 @@ func (c *Config) handleSvcConfigUpdate(svcName string, newCfg *service.Config) {
 	if oldCfg != nil {
 		c.emitSvcConfigEvent(svcName, newCfg)
 	}
-	// no processor exists for a service whose previous config was absent or
-	// unusable: (re)announce the service so that it gets one.
-	if oldCfg == nil || oldCfg.Validate() != nil {
-		c.emitSvcAddEvent(sw)
-	}
+	// no processor exists for a service whose previous config was absent,
+	// invalid or could not be turned into a processor (e.g. a protocol without
+	// builder): (re)announce the service so that it gets one. The controller
+	// ignores the announcement of a service which has a processor.
+	c.emitSvcAddEvent(sw)
 }
 
 func (c *Config) handleSvcEndpointUpdate(svcName string, added, removed []*service.Endpoint) {
@@ -255,10 +261,16 @@ func isContainEndpoint(endpoints []*service.Endpoint, endpoint *service.Endpoint
 }
 
 func (c *Config) emitSvcAddEvent(sw *serviceWrapper) {
+	// the event is read by another goroutine, later, without the store's lock:
+	// it must not share the backing array which endpoint removals shift in place.
+	endpoints := sw.Endpoints
+	if endpoints != nil {
+		endpoints = append(make([]*service.Endpoint, 0, len(endpoints)), endpoints...)
+	}
 	evt := &SvcAddEvent{
 		Name:      sw.Service.Name,
 		Config:    sw.Config,
-		Endpoints: sw.Endpoints,
+		Endpoints: endpoints,
 	}
 	c.evtCh <- evt
 }
